@@ -125,21 +125,25 @@ Definition is_log_empty (fs : files) (r : srow) : bool :=
 Definition cvs_names (m : mode) : list bytes :=
   map snd (filter (fun e => mode_eqb (fst e) m) cvs_logs).
 
-(* the loop of report_cvs_log: (bytes appended, format_file failed) *)
-Fixpoint cvs_loop (fs : files) (names : list bytes) (ncvs : nat) (out : bytes) : bytes * bool :=
+(* the loop of report_cvs_log: (bytes appended, format_file failed).  [skip_missing]: a file stat(2) does not
+   find is passed over like an empty one (Gen_Report.cvs_missing_skipped; /repo da850b3) - before that it made
+   format_file fail (D18) *)
+Fixpoint cvs_loop_with (skip_missing : bool) (fs : files) (names : list bytes) (ncvs : nat) (out : bytes) : bytes * bool :=
   match names with
   | [] => (out, false)
   | n :: ns =>
       match f_tmp fs n with
-      | Some [] => cvs_loop fs ns ncvs out                      (* stat ok, size 0 *)
-      | other =>
+      | Some [] => cvs_loop_with skip_missing fs ns ncvs out          (* stat ok, size 0 *)
+      | None =>
+          if skip_missing then cvs_loop_with skip_missing fs ns ncvs out
+          else ((if Nat.ltb 0 ncvs then out ++ [10] else out), true)
+      | Some b =>
           let out1 := if Nat.ltb 0 ncvs then out ++ [10] else out in
-          match other with
-          | None => (out1, true)
-          | Some b => cvs_loop fs ns (S ncvs) (out1 ++ format_file b)
-          end
+          cvs_loop_with skip_missing fs ns (S ncvs) (out1 ++ format_file b)
       end
   end.
+
+Definition cvs_loop := cvs_loop_with cvs_missing_skipped.
 
 Definition cvs_log (m : mode) (fs : files) : bytes * bool := cvs_loop fs (cvs_names m) 0 [10].
 
